@@ -169,6 +169,11 @@ def chemistOrdered (tol : Rat) (a : Op) : Op :=
 
 /-! ### `reorder` with an explicit mode map (a list: old index ↦ new index) -/
 
+/-- `num_modes = max([factor[0] for term in operator.terms for factor in term], default=-1) + 1`
+(the default makes constant / zero operators admissible: commit 88567902) -/
+def defaultNumModes (a : Op) : Nat :=
+  a.foldl (fun m e => e.1.foldl (fun m' f => max m' (f.1 + 1)) m) 0
+
 def reorder (tol : Rat) (cls : Cls) (modeMap : List Nat) (a : Op) : Op :=
   a.foldl (fun acc (t, c) =>
     iadd tol acc (mk cls (t.map fun f => (modeMap.getD f.1 0, f.2)) c)) []
